@@ -24,8 +24,10 @@ import PyxModel.Interp.State
 namespace Pyx
 namespace Interp
 
+/-- how a statement completes.  `ret` = a `return <expr>` was executed (the register holds its value), `retBare` = a bare
+    `return;` was executed (the register is untouched); both unwind to the body like Python's ReturnException -/
 inductive Out where
-  | normal | brk | cont | ret | stop
+  | normal | brk | cont | ret | retBare | stop
   deriving DecidableEq, Repr, Inhabited
 
 inductive WalkerKind where
@@ -126,15 +128,26 @@ def install (x : String) (v : Val) : M Unit := do
   let fr ← getFr
   setEnv (envInstall fr.env x v)
 
-/-- `SymbolTable.find_symbol`: the scope, then the domain's symbols (named constants) -/
+/-- the name `self`, in any letter case (`InstanceSymbolTable.find_symbol`: `name.lower() == 'self'`) -/
+def isSelfName (x : String) : Bool := x.map Char.toLower == "self"
+
+/-- `InstanceSymbolTable.find_symbol` / `SymbolTable.find_symbol`: in an operation or a derived attribute the NAME self (`relate self to …`,
+    `delete object instance SELF;`) is the receiving instance; else the scope, then the domain's symbols (constants) -/
+def selfHit (fr : Frame) (x : String) : Bool :=
+  match fr.kind with
+  | .function => false
+  | _ => isSelfName x
+
 def lookupVar (C : Ctx) (x : String) : M Val := do
   let fr ← getFr
-  match envLookup fr.env x with
-  | some v => pure v
-  | none =>
-    match C.consts.lookup x with
+  if selfHit fr x then pure fr.self
+  else
+    match envLookup fr.env x with
     | some v => pure v
-    | none => fail ("variable " ++ x ++ " is not set")
+    | none =>
+      match C.consts.lookup x with
+      | some v => pure v
+      | none => fail ("variable " ++ x ++ " is not set")
 
 def pushBlock : M Unit := do
   let fr ← getFr
@@ -153,8 +166,9 @@ def binop (op : BinOp) (a b : Val) : Except Err Val :=
   | .sub, .int x, .int y => .ok (.int (x - y))
   | .mul, .int x, .int y => .ok (.int (x * y))
   | .div, .int x, .int y => if y = 0 then .error ⟨"division by zero"⟩ else .ok (.int (Int.tdiv x y))
-  | .mod, .int x, .int y =>
-    if 0 ≤ x ∧ 0 < y then .ok (.int (x % y)) else .error ⟨"% outside the non-negative domain"⟩
+  -- `%` is the remainder of the truncating `/`: `(x / y) * y + x % y = x` (as in C, Java, the BridgePoint model
+  -- compilers); the sign follows the dividend
+  | .mod, .int x, .int y => if y = 0 then .error ⟨"division by zero"⟩ else .ok (.int (Int.tmod x y))
   | .lt, .int x, .int y => .ok (.bool (decide (x < y)))
   | .le, .int x, .int y => .ok (.bool (decide (x ≤ y)))
   | .gt, .int x, .int y => .ok (.bool (decide (x > y)))
@@ -461,7 +475,7 @@ def execStep (C : Ctx) (rec : Oracle) : Stmt → M Out
     | _ => fail "for each over a value that is not an instance set"
   | .brk => pure .brk
   | .cont => pure .cont
-  | .ret none => pure .ret
+  | .ret none => pure .retBare
   | .ret (some e) => do
     let v ← rec.eval e
     setRet v
